@@ -167,5 +167,9 @@ def run(ctx: Ctx):
     ok = bool(sh) and all("shift" in norm(a.value) for a in sh)
     ctx.ob("R15.5", f"{ap.qual}: shift reference stored as the resource's shift", ap, ok, "resource[shifts] := the named shift" if ok else
            "a shift referenced by id is not attached to the resource", key="R15.5|workinghours_shift")
+    # ---------------------------------------------------------------- R15.6 task identity
+    from .common import local_id_identity_rule
+    local_id_identity_rule(ctx, "R15.6", ("parser/tjp_parser.py", "parser/macro_processor.py"),
+                           "the same link spelled by absolute path and by relative reference then resolves differently")
     ctx.floor("R15.2", 2)
     ctx.floor("R15.4", 25)
